@@ -3,3 +3,5 @@
 package server
 
 const vfNoBackground = false
+
+const vfSingleRound = false
